@@ -278,6 +278,17 @@ func leavesOf(t types.Type, path string, out *[]leaf) {
 
 // heapGet returns the current SMT constant for a heap array, declaring the entry constant on demand.
 func (vc *VC) heapGet(st *State, name string, sort Sort) string {
+	if vc.heapTrace != nil {
+		seen := false
+		for _, r := range *vc.heapTrace {
+			if r.name == name {
+				seen = true
+			}
+		}
+		if !seen {
+			*vc.heapTrace = append(*vc.heapTrace, heapRead{name, sort})
+		}
+	}
 	if c, ok := st.heap[name]; ok {
 		if strings.HasPrefix(c, "?havoc") {
 			// lazily havoc'd before its sort was known
@@ -337,4 +348,9 @@ func sortedKeys(m map[string]bool) []string {
 	}
 	sort.Strings(ks)
 	return ks
+}
+
+type heapRead struct {
+	name string
+	sort Sort
 }
